@@ -507,6 +507,13 @@ struct Node final : vf::INode {
 		return 0;
 #endif
 	}
+	int serialBits() const override {
+#if VF_SERIAL
+		return int(Instance::SerialBuffer::BIT_CAPACITY);
+#else
+		return 0;
+#endif
+	}
 
 	bool alive() const override { return inst != nullptr; }
 
